@@ -322,6 +322,7 @@ func (f *fNatsServer) handler(msg *nats.Msg) {
 	defer f.sendMu.RUnlock()
 	if f.stopped {
 		logger().Warn("frugal: discarding NATS request received after the server stopped")
+		verifYield("natsserver.dropped", verifSubjectID(msg.Reply))
 		return
 	}
 	verifYield("natsserver.enqueue", verifSubjectID(msg.Reply))
